@@ -43,6 +43,10 @@ func (h header) WriteTo(w io.Writer) (int64, error) {
 	return int64(binary.Size(h)), binary.Write(w, binary.LittleEndian, h)
 }
 
+// maxDataLen is the largest data field accepted from the TNC. It guards against
+// allocating up to 4 GiB on a corrupt or malicious header (AX.25 frames are far smaller).
+const maxDataLen = 1 << 20
+
 // frame represents the variable-size AGWPE frame
 type frame struct {
 	header
@@ -67,6 +71,9 @@ func (f *frame) ReadFrom(r io.Reader) (int64, error) {
 	n, err := f.header.ReadFrom(r)
 	if err != nil {
 		return n, err
+	}
+	if f.header.DataLen > maxDataLen {
+		return n, fmt.Errorf("frame data length %d exceeds limit", f.header.DataLen)
 	}
 	if cap(f.Data) < int(f.header.DataLen) {
 		f.Data = make([]byte, int(f.header.DataLen))
